@@ -1100,7 +1100,7 @@ class DT(Function):
         self.model = model
 
     def term(self, time="t"):
-        return "{}".format(self.model.dt)
+        return "model.dt"
 
 
 class Starttime(Function):
@@ -1112,7 +1112,7 @@ class Starttime(Function):
         self.model = model
 
     def term(self, time="t"):
-        return "{}".format(self.model.starttime)
+        return "model.starttime"
 
 
 class Stoptime(Function):
@@ -1124,7 +1124,7 @@ class Stoptime(Function):
         self.model = model
 
     def term(self, time="t"):
-        return "{}".format(self.model.stoptime)
+        return "model.stoptime"
 
 
 class Time(Function):
@@ -1183,9 +1183,9 @@ class Pulse(Function):
 
     def term(self, time="t"):
         if self.interval.element == 0.0:
-            return "(({}/{}) if {}=={} else 0.0)".format(self.volume.term(time), self.model.dt, time, self.first_pulse)
+            return "(({}/{}) if {}=={} else 0.0)".format(self.volume.term(time), "model.dt", time, self.first_pulse)
         else:
-            return "(({volume}/{dt}) if (({time}-{first_pulse}) >= 0 and round(({time}-{first_pulse})/({interval}),9)%1==0) else 0.0)".format(volume=self.volume.term(time), dt=self.model.dt, time=time, first_pulse=self.first_pulse, interval=self.interval)
+            return "(({volume}/{dt}) if (({time}-{first_pulse}) >= 0 and round(({time}-{first_pulse})/({interval}),9)%1==0) else 0.0)".format(volume=self.volume.term(time), dt="model.dt", time=time, first_pulse=self.first_pulse, interval=self.interval)
 
 
 class Trend(Function):
@@ -1245,13 +1245,13 @@ class Delay(Function):
 
     def term(self, time="t"):
         delayed_time = "{} - {}".format(str(time),
-                                        self.delay_duration.term(str(self.model.starttime)))
+                                        self.delay_duration.term("model.starttime"))
         return "({} if round(({})-({}),9)>=0 else {})".format(
             self.input_function.term(delayed_time),
             delayed_time,
-            str(self.model.starttime),
-            self.initial_value.term(str(self.model.starttime)) if self.initial_value is not None else self.input_function.term(
-                str(self.model.starttime))
+            "model.starttime",
+            self.initial_value.term("model.starttime") if self.initial_value is not None else self.input_function.term(
+                "model.starttime")
         )
 
 
